@@ -144,6 +144,46 @@ def do_request(name, shared):
         return E.sympy, '__spin_i3a3', True, None
     elif name == 'norm4':
         r = mp.norm_factor(4)
+    elif name == 'rt_amp2':
+        # print -> import of a library-built expression with ground-state
+        # amplitudes (tensor kinds are decided by the configured names)
+        from adcgen import import_from_sympy_latex
+        x = Expr(mp.amplitude(2, 'pphh', 'ijab'), target_idx='ijab')
+        x = x.substitute_contracted()
+        y = import_from_sympy_latex(str(x))
+        y = Expr(y.sympy, target_idx='ijab')
+        from adcgen.sympy_objects import SymbolicTensor
+        kinds = sorted({(type(a_).__name__, str(a_.name))
+                        for a_ in y.sympy.atoms(SymbolicTensor)})
+        kinds0 = sorted({(type(a_).__name__, str(a_.name))
+                         for a_ in x.sympy.atoms(SymbolicTensor)})
+        if kinds != kinds0:
+            raise AssertionError(f'tensor kinds changed by print -> import: '
+                                 f'{kinds0} -> {kinds}')
+        if (y.sympy - x.sympy).expand() != 0:
+            raise AssertionError('print -> import does not restore the '
+                                 'expression')
+        r, tg = y.sympy, 'ijab'
+    elif name == 'import_default':
+        # a text written with the default tensor names, imported with
+        # convert_default_names=True (how the repository's reference data is
+        # read): equals the natively built expression under every configuration
+        from adcgen import import_from_sympy_latex, get_symbols
+        from adcgen import tensor_names as tn
+        from adcgen.sympy_objects import AntiSymmetricTensor, NonSymmetricTensor
+        txt = (r"\frac{{V^{ij}_{ab}}}{{e_{a}} + {e_{b}} - {e_{i}} - {e_{j}}}"
+               r" + \frac{{f^{i}_{a}} {V^{jk}_{bc}}}{2 {e_{a}} - 2 {e_{i}}}")
+        y = import_from_sympy_latex(txt, convert_default_names=True)
+        i, j, k, a, b, c = get_symbols('ijkabc')
+        E_ = lambda s_: NonSymmetricTensor(tn.orb_energy, (s_,))  # noqa: E731
+        nat = AntiSymmetricTensor(tn.eri, (i, j), (a, b)) \
+            / (E_(a) + E_(b) - E_(i) - E_(j)) \
+            + AntiSymmetricTensor(tn.fock, (i,), (a,)) \
+            * AntiSymmetricTensor(tn.eri, (j, k), (b, c)) / (2 * E_(a) - 2 * E_(i))
+        if (y.sympy - nat).expand() != 0:
+            raise AssertionError(f'import of a default-name text differs from '
+                                 f'the native expression: {y.sympy} vs {nat}')
+        r, tg = y.sympy, 'ijkabc'
     elif name == 'real_ov2':
         # real orbitals: complex-conjugate amplitudes (configured name + order +
         # 'cc') are renamed
